@@ -61,6 +61,14 @@ def run(res, replay=None):
                           (7, {'kind': 'beta', 'alpha': 1.75, 'scale_time': False})):
             cases.append({'spec': {'n_items': [['a', n_mm]], 'model': mdl, 'pop_sizes': {'a': {'0.0': rng.choice([0.5, 1.0, 2.0])}}},
                           'theta': rng.choice([0.25, 1.0]), 'max_mut': 2})
+    if not replay:
+        # designed: several demes with the sample NOT in the first deme (the enumeration starts from another state than the sampled one:
+        # absorbing states precede the initial state) and a multiple-merger model with the sample split over two demes
+        mg = {'a>b': {'0.0': 0.5}, 'b>a': {'0.0': 1.0}}
+        cases.append({'spec': {'n_items': [['a', 0], ['b', 3]], 'model': {'kind': 'kingman'}, 'pop_sizes': {'a': {'0.0': 1.0}, 'b': {'0.0': 2.0}},
+                               'migration_rates': mg}, 'theta': 1.0, 'max_mut': 2})
+        cases.append({'spec': {'n_items': [['a', 2], ['b', 2]], 'model': {'kind': 'beta', 'alpha': 1.5, 'scale_time': False},
+                               'pop_sizes': {'a': {'0.0': 1.0}, 'b': {'0.0': 0.5}}, 'migration_rates': mg}, 'theta': 0.25, 'max_mut': 2})
     for j_, c in enumerate(cases):
         if j_ % 2 == 1 and c['theta'] > 0:
             c['pre_thetas'] = [0.5, 3.0]
